@@ -18,9 +18,17 @@ Open Scope nat_scope.
        at e+k-p scores strictly below the minimizer. *)
 Theorem C07_scan_spec : forall (score : dna -> N) sq k p,
   1 <= p -> p <= k -> k <= length sq -> (N.of_nat (length sq) < 2 ^ 32)%N -> (N.of_nat (2 * k - p) < 2 ^ 16)%N ->
-  exists ivs, scan score sq k p = Some ivs /\
+  exists ivs, scan_checked score sq k p = Some ivs /\
               scan_ok score sq k p (map iv_nat ivs) /\ covered_once sq k (map iv_nat ivs).
-Proof. exact scan_spec. Qed.
+Proof. exact scan_checked_spec. Qed.
+
+(* [scan_checked] is the model in which every get_kmer / get index and every usize subtraction is checked
+   (None = panic).  It equals the total model [scan_w] on ALL inputs and for every width of the length field:
+   inside the four guards (|seq| >= k, |seq| < 2^32, p >= 1, p <= k) no inner panic branch is taken; outside
+   them the code panics. *)
+Theorem C07_no_inner_panic : forall (score : dna -> N) sq k p wl,
+  scan_checked_w score sq k p wl = scan_w score sq k p wl.
+Proof. exact scan_checked_eq. Qed.
 
 (* the same for the usize values before the casts, without the size guards *)
 Theorem C07_scan_raw_ok : forall (score : dna -> N) sq k p, 1 <= p -> p <= k -> k <= length sq ->
@@ -52,7 +60,7 @@ Proof. exact check_scan_sound. Qed.
    width 16: k = 32772, p = 8, 65536 A's). *)
 Theorem C07_scan_len_wrap_refuted :
   exists score sq k p ivs, 1 <= p <= k /\ k <= length sq /\
-    scan_w score sq k p 4 = Some ivs /\ exists x, In x ivs /\ (iv_len x < N.of_nat k)%N.
+    scan_checked_w score sq k p 4 = Some ivs /\ exists x, In x ivs /\ (iv_len x < N.of_nat k)%N.
 Proof. exact scan_len_wrap_refuted. Qed.
 
 Example C07_nonvacuous_lex :
@@ -64,6 +72,7 @@ Example C07_nonvacuous_const :
 Proof. exact scan_example_const. Qed.
 
 Print Assumptions C07_scan_spec.
+Print Assumptions C07_no_inner_panic.
 Print Assumptions C07_scan_raw_ok.
 Print Assumptions C07_covered_once.
 Print Assumptions C07_check_scan_sound.
